@@ -1,34 +1,76 @@
 --------------------------- MODULE RemoveNanProof ---------------------------
 (***************************************************************************)
 (* TLAPS proofs about RemoveNanAlg: Inv (cursor safety, loop invariant,    *)
-(* the returned prefix is exactly the non-missing part) is inductive for   *)
-(* lanes of every length.        tlapm RemoveNanProof.tla                  *)
+(* the returned prefix is exactly the non-missing part, and - through a    *)
+(* ghost permutation - the lane is always a rearrangement of the original  *)
+(* one) is inductive for lanes of every length.                            *)
 (***************************************************************************)
 EXTENDS RemoveNanAlg, TLAPS
 
-LEMMA InitInv == Init => Inv
-  BY DEF Assumptions, params, Init, Inv, TypeOK, CursorInv, LoopInv, Post, Split, StartOK, Scanning, Idx, Missing
+USE DEF Assumptions, params, Scanning, Idx, Missing
 
-LEMMA StartInv == Inv /\ Start => Inv'
-  BY DEF Assumptions, params, Inv, Start, TypeOK, CursorInv, LoopInv, Post, Split, StartOK, Scanning, Idx, Missing
+LEMMA InitCore == Init => Core
+  BY DEF Init, Core, TypeOK, CursorInv, LoopInv, Post, Split, StartOK
+LEMMA StartCore == Core /\ Start => Core'
+  BY DEF Core, Start, TypeOK, CursorInv, LoopInv, Post, Split, StartOK
+LEMMA StepICore == Core /\ StepI => Core'
+  BY DEF Core, StepI, TypeOK, CursorInv, LoopInv, Post, Split, StartOK
+LEMMA StepJCore == Core /\ StepJ => Core'
+  BY DEF Core, StepJ, TypeOK, CursorInv, LoopInv, Post, Split, StartOK
+LEMMA CmpCore == Core /\ Cmp => Core'
+  BY DEF Core, Cmp, TypeOK, CursorInv, LoopInv, Post, Split, StartOK, Swap
+LEMMA CastCore == Core /\ Cast => Core'
+  BY DEF Core, Cast, TypeOK, CursorInv, LoopInv, Post, Split, StartOK
+LEMMA StutterCore == Core /\ UNCHANGED vars => Core'
+  BY DEF Core, vars, TypeOK, CursorInv, LoopInv, Post, Split, StartOK
 
-LEMMA StepIInv == Inv /\ StepI => Inv'
-  BY DEF Assumptions, params, Inv, StepI, TypeOK, CursorInv, LoopInv, Post, Split, StartOK, Scanning, Idx, Missing
+LEMMA InitPerm == Init => PermInv
+  BY DEF Init, PermInv
 
-LEMMA StepJInv == Inv /\ StepJ => Inv'
-  BY DEF Assumptions, params, Inv, StepJ, TypeOK, CursorInv, LoopInv, Post, Split, StartOK, Scanning, Idx, Missing
+LEMMA CmpPerm == Inv /\ Cmp => PermInv'
+  <1> SUFFICES ASSUME Inv, Cmp PROVE PermInv'
+    OBVIOUS
+  <1>0. lane \in [Idx -> Int] /\ Lane0 \in [Idx -> Int] /\ Lane0' = Lane0 /\ Len0' = Len0 /\ PermInv /\ pc = "Cmp"
+        /\ i \in Int /\ j \in Int /\ 0 <= i /\ i <= Len0 /\ 0 <= j /\ j <= Len0 - 1 /\ Len0 \in Nat
+    BY DEF Inv, Core, TypeOK, CursorInv, Cmp
+  <1>a. CASE i >= j
+    BY <1>0, <1>a DEF Cmp, PermInv
+  <1>b. CASE ~(i >= j)
+    <2>1. lane' = Swap(lane, i, j) /\ perm' = Swap(perm, i, j) /\ i \in Idx /\ j \in Idx
+      BY <1>0, <1>b DEF Cmp
+    <2>2. /\ perm \in [Idx -> Idx] /\ (\A u \in Idx : \A v \in Idx : u # v => perm[u] # perm[v]) /\ (\A u \in Idx : lane[u] = Lane0[perm[u]])
+      BY <1>0 DEF PermInv
+    <2>3. /\ Swap(perm, i, j) \in [Idx -> Idx]
+          /\ \A u \in Idx : \A v \in Idx : u # v => Swap(perm, i, j)[u] # Swap(perm, i, j)[v]
+          /\ \A u \in Idx : Swap(lane, i, j)[u] = Lane0[Swap(perm, i, j)[u]]
+      <3> HIDE DEF Idx
+      <3> QED BY <1>0, <2>1, <2>2 DEF Swap
+    <2> QED BY <1>0, <2>1, <2>3 DEF PermInv
+  <1> QED BY <1>a, <1>b
 
-LEMMA CmpInv == Inv /\ Cmp => Inv'
-  BY DEF Assumptions, params, Inv, Cmp, TypeOK, CursorInv, LoopInv, Post, Split, StartOK, Scanning, Idx, Missing, Swap
-
-LEMMA CastInv == Inv /\ Cast => Inv'
-  BY DEF Assumptions, params, Inv, Cast, TypeOK, CursorInv, LoopInv, Post, Split, StartOK, Scanning, Idx, Missing
-
-LEMMA StutterInv == Inv /\ UNCHANGED vars => Inv'
-  BY DEF Assumptions, params, Inv, vars, TypeOK, CursorInv, LoopInv, Post, Split, StartOK, Scanning, Idx, Missing
+LEMMA KeepPerm == ASSUME PermInv, UNCHANGED <<lane, perm, Lane0, Len0>> PROVE PermInv'
+  BY DEF PermInv
 
 THEOREM Safety == Spec => []Inv
   <1>1. Inv /\ [Next]_vars => Inv'
-    BY StartInv, StepIInv, StepJInv, CmpInv, CastInv, StutterInv DEF Next
-  <1>. QED  BY InitInv, <1>1, PTL DEF Spec
+    <2> SUFFICES ASSUME Inv, [Next]_vars PROVE Inv'
+      OBVIOUS
+    <2>1. Core /\ PermInv
+      BY DEF Inv
+    <2>a. CASE Start
+      BY <2>1, <2>a, StartCore, KeepPerm DEF Inv, Start
+    <2>b. CASE StepI
+      BY <2>1, <2>b, StepICore, KeepPerm DEF Inv, StepI
+    <2>c. CASE StepJ
+      BY <2>1, <2>c, StepJCore, KeepPerm DEF Inv, StepJ
+    <2>d. CASE Cmp
+      BY <2>1, <2>d, CmpCore, CmpPerm DEF Inv
+    <2>e. CASE Cast
+      BY <2>1, <2>e, CastCore, KeepPerm DEF Inv, Cast
+    <2>f. CASE UNCHANGED vars
+      BY <2>1, <2>f, StutterCore, KeepPerm DEF Inv, vars
+    <2> QED BY <2>a, <2>b, <2>c, <2>d, <2>e, <2>f DEF Next
+  <1>2. Init => Inv
+    BY InitCore, InitPerm DEF Inv
+  <1>. QED  BY <1>1, <1>2, PTL DEF Spec
 =============================================================================
